@@ -12,8 +12,11 @@ theorems `C15_6800_every_mnemonic_known`, `C15_6800_des`, `C15_6800_unknown_opco
 the repaired behaviour.  `C15_6800_honest` no longer needs the instructions of the image to be "whole": since the repair of
 `RetrieveCodeFromChunkList` a request is answered only with bytes of the image (`retrieve_isSome_iff`), so an instruction cut
 off by the end of a chunk is not reported at all (`C15_6800_cut_instruction_not_reported`) and one that lies across two chunks
-is fetched correctly (`C15_6800_instruction_across_chunks`).  What remains is the continuation at address 0 behind $FFFF in
-deco68.c's own `RetrieveData` (`C15_finding_6800_wrap_instruction`). -/
+is fetched correctly (`C15_6800_instruction_across_chunks`).  Since the repair bdcaec7 of deco68.c's own `RetrieveData` (no
+continuation at address 0 behind $FFFF) it needs no hypothesis at all: `C15_6800_honest_at`, `C15_6800_honest`,
+`C15_6800_areas_inside`, `C15_6800_areas_inside_C` hold for every image and also give `x < 0x10000`
+(`C15_6800_inside_address_space`); the former finding is the positive statement `C15_6800_no_wrap_instruction`.  What remains is
+the `% 0xffff` reduction of the fall-through successor (`C15_finding_6800_fallthrough_wrap`). -/
 namespace AslModel.Dis
 open AslModel.Generated
 
@@ -303,114 +306,108 @@ theorem C15_finding_6800_fallthrough_wrap : (0xfffe + 1) % 0xffff = 0 ∧ (0xfff
 /-! ### the reported areas lie inside the image -/
 
 open M6800 in
-/-- `Disassemble_68` at `a` reports only bytes of the image, provided the instruction it reports does not run through the end of
-the 64K address space (or address 0 is no byte of the image, so that nothing can be fetched through the wrap of `RetrieveData`).
-No assumption about the image: an instruction that is cut off by the end of a chunk is not reported
-(`C15_6800_cut_instruction_not_reported`), one that lies in two adjacent chunks is (`C15_6800_instruction_across_chunks`). -/
-theorem C15_6800_honest_at (img : Image) (lower : Bool) (syms : Syms) (a : Nat)
-    (hw : a + (M6800.disassemble img lower syms a false (-1)).1.len ≤ 0x10000 ∨ ¬ inImage img 0) :
-    ∀ x, a ≤ x → x < a + (M6800.disassemble img lower syms a false (-1)).1.len → inImage img x := by
+/-- `Disassemble_68` at `a` reports only bytes of the image, and only addresses of the 64K address space - for every image, every
+address and every inverse symbol table.  No assumption about the image: an instruction that is cut off by the end of a chunk is not
+reported (`C15_6800_cut_instruction_not_reported`), one that lies in two adjacent chunks is (`C15_6800_instruction_across_chunks`),
+one that would need bytes behind $FFFF is not reported either (`C15_6800_no_wrap_instruction`; before the repair bdcaec7 of
+deco68.c this theorem needed "the instruction ends at or below 0x10000, or address 0 is not loaded"). -/
+theorem C15_6800_honest_at (img : Image) (lower : Bool) (syms : Syms) (a : Nat) :
+    ∀ x, a ≤ x → x < a + (M6800.disassemble img lower syms a false (-1)).1.len → inImage img x ∧ x < 0x10000 := by
   intro x hx1 hx2
-  by_cases ha : a = 0x10000
-  · -- the opcode byte would be fetched from address 0
-    subst ha
+  by_cases ha : a < 0x10000
+  case neg =>
+    -- the opcode byte lies behind the end of the address space: nothing is fetched
     exfalso
-    rcases hw with hw | hw
-    · omega
-    · have h1 : M6800.retrieveData img lower 0x10000 1 = (none, ["cannot retrieve instruction arg @ 0x" ++ hexString lower 0 0]) := by
-        have hz : retrieve img 0x10000 0 = some [] := rfl
-        have h00 := retrieve_none_of_not_inImage img 0 1 (by omega) hw
-        simp [M6800.retrieveData, M6800.retrieveDataF, hz, h00]
-      unfold M6800.disassemble at hx2
-      simp [h1] at hx2
-      omega
-  · unfold M6800.disassemble at hx2 hw
-    rw [retrieveData_one img lower a ha] at hx2 hw
-    cases hr : retrieve img a 1 with
-    | none => simp [hr] at hx2; omega
-    | some bs =>
-      have hin := retrieve_one_inImage img a bs hr
-      simp only [hr, Bool.false_eq_true, if_false] at hx2 hw
-      generalize (bs.map UInt8.toNat).getD 0 0 = op at hx2 hw
-      split at hx2
-      · -- unknown opcode: one data byte
-        have h0 : retrieveData img lower (a + 1) 0 = (some [], []) := by simp [retrieveData, retrieveDataF]
-        simp [h0] at hx2
-        have : x = a := by omega
-        rw [this]; exact hin
-      · rename_i hunk
-        simp only [hunk, if_false] at hw
-        cases hd : retrieveData img lower (a + 1) (operandBytes (row op)) with
-        | mk od e =>
-          cases od with
-          | none => simp [hd] at hx2; omega
-          | some data =>
-            simp only [hd] at hx2 hw
-            cases hdec : decode lower syms a op data with
-            | none => simp [hdec] at hx2; omega
-            | some p =>
-              obtain ⟨dec, s'⟩ := p
-              simp only [hdec] at hx2 hw
-              have hl : dec.len = instrLen (row op) := by
-                unfold decode at hdec
-                by_cases hlen : data.length = operandBytes (row op)
-                case neg => simp [hlen] at hdec
-                simp only [hlen, ne_eq, not_true_eq_false, ↓reduceIte] at hdec
-                cases hty : (row op).typ <;> simp only [hty] at hdec
-                case eUnknown => cases hdec
-                all_goals
-                  simp only [Option.some.injEq, Prod.mk.injEq] at hdec
-                  obtain ⟨rfl, _⟩ := hdec
-                  rfl
-              rw [hl] at hx2 hw
-              unfold instrLen at hx2 hw
-              by_cases hxa : x = a
-              · rw [hxa]; exact hin
-              · have := retrieveData_inImage img lower (a + 1) (operandBytes (row op)) data e hd
-                  (by rcases hw with hw | hw
-                      · left; omega
-                      · right; exact hw) (x - a - 1) (by omega)
-                have he : a + 1 + (x - a - 1) = x := by omega
-                rw [he] at this; exact this
+    have h1 := M6800.retrieveData_beyond img lower a 1 (by omega)
+    unfold M6800.disassemble at hx2
+    simp [h1] at hx2
+    omega
+  unfold M6800.disassemble at hx2
+  rw [retrieveData_one img lower a ha] at hx2
+  cases hr : retrieve img a 1 with
+  | none => simp [hr] at hx2; omega
+  | some bs =>
+    have hin := retrieve_one_inImage img a bs hr
+    simp only [hr, Bool.false_eq_true, if_false] at hx2
+    generalize (bs.map UInt8.toNat).getD 0 0 = op at hx2
+    split at hx2
+    · -- unknown opcode: one data byte
+      have h0 : retrieveData img lower (a + 1) 0 = (some [], []) := retrieveData_zero img lower (a + 1) (by omega)
+      simp [h0] at hx2
+      have : x = a := by omega
+      rw [this]; exact ⟨hin, ha⟩
+    · rename_i hunk
+      cases hd : retrieveData img lower (a + 1) (operandBytes (row op)) with
+      | mk od e =>
+        cases od with
+        | none => simp [hd] at hx2; omega
+        | some data =>
+          simp only [hd] at hx2
+          cases hdec : decode lower syms a op data with
+          | none => simp [hdec] at hx2; omega
+          | some p =>
+            obtain ⟨dec, s'⟩ := p
+            simp only [hdec] at hx2
+            have hl : dec.len = instrLen (row op) := by
+              unfold decode at hdec
+              by_cases hlen : data.length = operandBytes (row op)
+              case neg => simp [hlen] at hdec
+              simp only [hlen, ne_eq, not_true_eq_false, ↓reduceIte] at hdec
+              cases hty : (row op).typ <;> simp only [hty] at hdec
+              case eUnknown => cases hdec
+              all_goals
+                simp only [Option.some.injEq, Prod.mk.injEq] at hdec
+                obtain ⟨rfl, _⟩ := hdec
+                rfl
+            rw [hl] at hx2
+            unfold instrLen at hx2
+            by_cases hxa : x = a
+            · rw [hxa]; exact ⟨hin, ha⟩
+            · have := retrieveData_inImage img lower (a + 1) (operandBytes (row op)) data e hd (x - a - 1) (by omega)
+              have he : a + 1 + (x - a - 1) = x := by omega
+              rw [he] at this; exact this
 
-/-- the `Honest` predicate of the generic trace-loop theorems holds for every image in which address 0 is not loaded (nothing can
-be fetched through the wrap at 0x10000).  The former hypothesis that every instruction-shaped byte sequence of the image is
-whole is gone. -/
-theorem C15_6800_honest (img : Image) (lower : Bool) (h00 : ¬ inImage img 0) : Honest M6800.disassemble img lower := by
+/-- non-vacuity of `C15_6800_honest_at`: `ldaa $1234` at $1000 is reported with length 3, so the statement speaks about $1000…$1002 -/
+example : (M6800.disassemble [⟨0x1000, [0xb6, 0x12, 0x34]⟩] false {} 0x1000 false (-1)).1.len = 3 := by decide +kernel
+
+/-- a reported instruction ends inside the 64K address space: `Address + CodeLen ≤ 0x10000` -/
+theorem C15_6800_inside_address_space (img : Image) (lower : Bool) (syms : Syms) (a : Nat)
+    (h : (M6800.disassemble img lower syms a false (-1)).1.len ≠ 0) :
+    a + (M6800.disassemble img lower syms a false (-1)).1.len ≤ 0x10000 := by
+  have := (C15_6800_honest_at img lower syms a (a + (M6800.disassemble img lower syms a false (-1)).1.len - 1) (by omega) (by omega)).2
+  omega
+
+/-- the `Honest` predicate of the generic trace-loop theorems holds for the 6800 callback on EVERY image (before the repair bdcaec7:
+only for images in which address 0 is not loaded) -/
+theorem C15_6800_honest (img : Image) (lower : Bool) : Honest M6800.disassemble img lower := by
   intro syms a x hx1 hx2
-  exact C15_6800_honest_at img lower syms a (Or.inr h00) x hx1 hx2
+  exact (C15_6800_honest_at img lower syms a x hx1 hx2).1
 
-/-- non-vacuity: the image `01 B6 12` at $1000 – with an instruction cut off by its end – satisfies the hypothesis -/
-example : ¬ inImage [⟨0x1000, [0x01, 0xb6, 0x12]⟩] 0 := by simp [inImage]
-
-/-- for the 6800 the reported code areas lie inside the loaded image if no traced instruction runs through the end of the 64K
-address space (or address 0 is not loaded) -/
-theorem C15_6800_areas_inside (img : Image) (lower : Bool) (fuel : Nat) (s0 : TState) (h0 : s0.code = []) (h1 : s0.traced = [])
-    (hw : (∀ e ∈ (traceLoop M6800.disassemble img lower fuel s0).1.traced, e.1 + e.2 ≤ 0x10000) ∨ ¬ inImage img 0) :
-    ∀ x, area (traceLoop M6800.disassemble img lower fuel s0).1.code x → inImage img x := by
+/-- for the 6800 the reported code areas lie inside the loaded image (and inside the 64K address space) - for every image, every set
+of entry addresses already queued in `s0`, every number of rounds -/
+theorem C15_6800_areas_inside (img : Image) (lower : Bool) (fuel : Nat) (s0 : TState) (h0 : s0.code = []) (h1 : s0.traced = []) :
+    ∀ x, area (traceLoop M6800.disassemble img lower fuel s0).1.code x → inImage img x ∧ x < 0x10000 := by
   intro x hx
   have hA := (C15_areas M6800.disassemble img lower fuel s0 h0 h1).2.2 x
   have hF := traceLoop_from M6800.disassemble img lower fuel s0 (by rw [h1]; intro e he; cases he)
   obtain ⟨e, he, hx1, hx2⟩ := hA.mp hx
   obtain ⟨syms, hlen, _⟩ := hF e he
-  refine C15_6800_honest_at img lower syms e.1 ?_ x hx1 (by rw [hlen]; exact hx2)
-  rcases hw with hw | hw
-  · left; rw [hlen]; exact hw e he
-  · right; exact hw
+  exact C15_6800_honest_at img lower syms e.1 x hx1 (by rw [hlen]; exact hx2)
 
 /-- …the same for the array `UsedCodeChunks` as chunks.c keeps it (the list the machine carries; `C15_areas_C`) -/
-theorem C15_6800_areas_inside_C (img : Image) (lower : Bool) (fuel : Nat) (s0 : TState) (h0 : s0.codeC = []) (h1 : s0.traced = [])
-    (hw : (∀ e ∈ (traceLoop M6800.disassemble img lower fuel s0).1.traced, e.1 + e.2 ≤ 0x10000) ∨ ¬ inImage img 0) :
-    ∀ x, area (traceLoop M6800.disassemble img lower fuel s0).1.codeC x → inImage img x := by
+theorem C15_6800_areas_inside_C (img : Image) (lower : Bool) (fuel : Nat) (s0 : TState) (h0 : s0.codeC = []) (h1 : s0.traced = []) :
+    ∀ x, area (traceLoop M6800.disassemble img lower fuel s0).1.codeC x → inImage img x ∧ x < 0x10000 := by
   intro x hx
   have hA := (C15_areas_C M6800.disassemble img lower fuel s0 h0 h1).2.2.1 x
   have hF := traceLoop_from M6800.disassemble img lower fuel s0 (by rw [h1]; intro e he; cases he)
   obtain ⟨e, he, hx1, hx2⟩ := hA.mp hx
   obtain ⟨syms, hlen, _⟩ := hF e he
-  refine C15_6800_honest_at img lower syms e.1 ?_ x hx1 (by rw [hlen]; exact hx2)
-  rcases hw with hw | hw
-  · left; rw [hlen]; exact hw e he
-  · right; exact hw
+  exact C15_6800_honest_at img lower syms e.1 x hx1 (by rw [hlen]; exact hx2)
+
+/-- non-vacuity of the two area theorems: tracing the image `B6 12 | 10` at $FFFE / $0000 plus `01 39` at $1000 from the entries
+$1000 and $FFFE gives a non-empty code area (the `nop`/`rts` at $1000), and nothing at $FFFE -/
+example : ((traceLoop M6800.disassemble [⟨0, [0x10]⟩, ⟨0x1000, [0x01, 0x39]⟩, ⟨0xfffe, [0xb6, 0x12]⟩] false 10
+      { queue := [0x1000, 0xfffe] }).1.codeC) = [⟨0x1000, 2⟩] := by decide +kernel
 
 /-! ### the repaired defects, as positive facts about the models of the repaired code -/
 
@@ -488,16 +485,23 @@ theorem C15_6800_instruction_across_chunks :
     (M6800.disassemble [⟨0x1000, [0xb6, 0x12]⟩, ⟨0x1002, [0x34, 0x39]⟩] false {} 0x1000 false (-1)).1.len = 3 := by
   decide +kernel
 
-/-! ### what remains (known finding of C15) -/
+/-- an instruction that would need bytes behind $FFFF is not reported (the repair bdcaec7 of deco68.c; formerly `RetrieveData`
+continued the operand fetch at address 0: `B6 12` at $FFFE with a byte at $0000 gave `ldaa $1210 ; B6 12 ??`, length 3 and the code area
+`FFFE...10000` outside the image - finding `dasl-instruction-wraps-64k`).  Now: no instruction at $FFFE (length 0), the message
+`cannot retrieve instruction arg @ 0xFFFF`, nothing traced, no code area at all; and an opcode asked for at 0x10000 (the
+successor of an instruction ending at $FFFF is reduced `% 0xffff`, see `C15_finding_6800_fallthrough_wrap`, but an
+`-entryaddress 65536` reaches the callback) is not fetched from address 0 either. -/
+theorem C15_6800_no_wrap_instruction :
+    (M6800.disassemble [⟨0, [0x10]⟩, ⟨0xfffe, [0xb6, 0x12]⟩] false {} 0xfffe false (-1)).1.len = 0 ∧
+    (M6800.disassemble [⟨0, [0x10]⟩, ⟨0xfffe, [0xb6, 0x12]⟩] false {} 0xfffe false (-1)).2.2 = ["cannot retrieve instruction arg @ 0xFFFF"] ∧
+    (traceLoop M6800.disassemble [⟨0, [0x10]⟩, ⟨0xfffe, [0xb6, 0x12]⟩] false 10 { queue := [0xfffe] }).1.codeC = [] ∧
+    (traceLoop M6800.disassemble [⟨0, [0x10]⟩, ⟨0xfffe, [0xb6, 0x12]⟩] false 10 { queue := [0xfffe] }).1.traced = [] ∧
+    (M6800.disassemble [⟨0, [0x10]⟩, ⟨0xfffe, [0xb6, 0x12]⟩] false {} 0x10000 false (-1)).1.len = 0 ∧
+    (M6800.disassemble [⟨0, [0x01]⟩, ⟨0xffff, [0x01]⟩] false {} 0xffff false (-1)).1.len = 1 := by
+  decide +kernel
 
-/-- deco68.c's own `RetrieveData` still continues an operand fetch at address 0 behind $FFFF: `B6 12` at $FFFE with a byte at $0000
-gives a 3-byte instruction, reported as the extent `FFFE…10000` which is not inside the image (finding `dasl-instruction-wraps-64k`);
-this is why `C15_6800_honest_at` has its hypothesis.  The byte dump of that line takes the third byte from the part of `Code[]`
-`RetrieveCodeFromChunkList` did not fill (`retrieveCopied` delivers two bytes). -/
-theorem C15_finding_6800_wrap_instruction :
-    (M6800.disassemble [⟨0, [0x10]⟩, ⟨0xfffe, [0xb6, 0x12]⟩] false {} 0xfffe false (-1)).1.len = 3 ∧
-    ¬ inImage [⟨0, [0x10]⟩, ⟨0xfffe, [0xb6, 0x12]⟩] 0x10000 ∧
-    retrieveCopied [⟨0, [0x10]⟩, ⟨0xfffe, [0xb6, 0x12]⟩] 0xfffe 3 = [0xb6, 0x12] := by
-  refine ⟨by decide +kernel, by simp [inImage], by decide +kernel⟩
+/-! ### what remains
+
+The fall-through successor is still reduced with `% 0xffff` (`C15_finding_6800_fallthrough_wrap` above): not repaired. -/
 
 end AslModel.Dis
